@@ -161,9 +161,18 @@ func (e *Engine) contractForView(fn *ssa.Function, v *View) *Contract {
 		fn = o
 	}
 	k := funcKey(fn)
-	if v != nil && v.Field {
-		if c, ok := e.cs.ByKey[k+"@field"]; ok {
+	if v != nil && v.Group {
+		if c, ok := e.cs.ByKey[k+"@group"]; ok {
 			return c
+		}
+	}
+	if v != nil && v.Field {
+		// fr methods keep their limb contracts in units that see fr.Element as limbs
+		frCallee := strings.HasPrefix(k, repoMod+"/bandersnatch/fr.")
+		if !(frCallee && v.FrLimbs) {
+			if c, ok := e.cs.ByKey[k+"@field"]; ok {
+				return c
+			}
 		}
 	}
 	return e.cs.ByKey[k]
@@ -242,8 +251,11 @@ func (e *Engine) NewGen(fn *ssa.Function, ct *Contract) *Gen {
 	sorts := []string{"Int"}
 	for _, p := range ct.Preludes {
 		switch p {
-		case "field", "group", "curve", "fieldring":
+		case "field", "curve", "fieldring":
 			v.Field = true
+		case "group":
+			v.Field = true
+			v.Group = true
 		case "bytes":
 			v.Bytes = true
 		}
